@@ -134,6 +134,50 @@ def level_a(rep, tier, seed, n=None):
     return info, samples
 
 
+FIDELITY = {"quick": 4, "thorough": 32}
+
+
+def _fidelity_job(arg):
+    """One SYN plan on procsim and on real multiprocessing (fresh interpreter, 90 s
+    limit): outcome classes per call must agree.  Informational: never the deciding step."""
+    import subprocess
+
+    from hsim import histsim
+
+    seed, i = arg
+    r = syn.run_index(seed, i)
+    sim = [[v["outcome"], v["detail"] if v["outcome"] == "raised" else None]
+           for v in r["verdicts"]]
+    try:
+        real = histsim.child({"kind": "syn_real", "plan": r["plan"]}, {}, timeout=90)
+        real_v = [[v[0], v[1]] for v in real["verdicts"]]
+        wrong = any(v[0] == "returned" and v[2] is False for v in real["verdicts"])
+    except subprocess.TimeoutExpired:
+        real_v, wrong = [["hung", None]], False
+    return {"index": i, "procsim": sim, "real": real_v, "real_wrong_list": wrong,
+            "agree": sim == real_v and not wrong}
+
+
+def stub_fidelity(tier, seed):
+    n = FIDELITY[tier]
+    # plans with a failing task first: that is where a stub could be unfaithful
+    idx = []
+    i = 0
+    while len(idx) < n and i < 50 * n:
+        plan = syn.make_plan(core.stream(core.run_seed(seed, syn.ENGINE, i), "workload"))
+        faulty = any(t[2] != "ok" for c in plan["calls"] for t in c["tasks"])
+        ntasks = sum(len(c["tasks"]) for c in plan["calls"])
+        if ntasks <= 30 and (faulty or len(idx) % 3 == 0):
+            idx.append(i)
+        i += 1
+    res = batch.map_chunks(_fidelity_job, [(seed, i) for i in idx], nproc=4, limit_s=300)
+    agree = sum(1 for r in res if r["agree"])
+    say(f"[C13] stub fidelity: {agree}/{len(res)} SYN scenarios give the same outcome "
+        "classes on real multiprocessing and on procsim")
+    return {"scenarios": len(res), "agree": agree,
+            "disagreements": [r for r in res if not r["agree"]][:5]}
+
+
 GRID_CASES = {"quick": 12, "thorough": 160}
 GRID_SCHEDULES = {"quick": 3, "thorough": 6}
 
@@ -226,6 +270,7 @@ def main(tier, seed):
     info_b, samples_b = rep.phase("level_B", level_b, rep, tier, seed) or (
         {"runs": 0, "distinct_signatures": 0, "aborted": True}, [])
     samples = samples[:2] + samples_b
+    fidelity = rep.phase("stub_fidelity", stub_fidelity, tier, seed)
     coverage = {
         "evaluations": info_a["runs"] + info_b["runs"],
         "distinct_nontrivial": info_a["distinct_signatures"] + info_b["distinct_signatures"],
@@ -249,7 +294,7 @@ def main(tier, seed):
             "worker SIGKILL is outside the statement and not injected",
             "a clean batch is evidence about the sampled schedules and fault plans only",
         ],
-        extra={"determinism_selftest": det, "components": {
+        extra={"determinism_selftest": det, "stub_fidelity": fidelity, "components": {
             "real": ["hypnotoad.utils.parallel_map.ParallelMap (__init__, __call__, "
                      "worker_run, __del__)", "dill", "multiprocessing.reduction.ForkingPickler"],
             "stub": ["multiprocessing.Queue", "multiprocessing.Process", "task functions "
